@@ -7,6 +7,7 @@ import (
 	"sort"
 	"strconv"
 	"strings"
+	"sync"
 	"time"
 )
 
@@ -154,8 +155,11 @@ func NewUnits(baseUnit *UnitDefinition, multipliers map[int64]*UnitDefinition) *
 }
 
 type UnitsDefinition struct {
-	BaseUnitValue          *UnitDefinition           `json:"base_unit"`
-	MultipliersValue       map[int64]*UnitDefinition `json:"multipliers"`
+	BaseUnitValue    *UnitDefinition           `json:"base_unit"`
+	MultipliersValue map[int64]*UnitDefinition `json:"multipliers"`
+	// cacheLock guards the lazily filled caches below: one definition (in particular the package-level
+	// ones) is shared by every schema that uses it and may be used by several goroutines at once.
+	cacheLock              sync.Mutex
 	sortedMultipliersCache []int64
 	reCache                *regexp.Regexp
 	reSubExpNames          map[string]int
@@ -234,6 +238,8 @@ func (u *UnitsDefinition) FormatLongFloat(data float64) string {
 }
 
 func (u *UnitsDefinition) getSortedMultipliersCache() []int64 {
+	u.cacheLock.Lock()
+	defer u.cacheLock.Unlock()
 	if u.sortedMultipliersCache == nil {
 		var multipliers []int64
 		for multiplier := range u.MultipliersValue {
@@ -254,10 +260,8 @@ func (u *UnitsDefinition) parse(data string) (any, error) {
 			Message: "Empty string cannot be parsed as " + u.BaseUnitValue.NameLongPlural(),
 		}
 	}
-	if u.reCache == nil {
-		u.updateReCache()
-	}
-	match := u.reCache.FindStringSubmatch(data)
+	re, reSubExpNames := u.getReCache()
+	match := re.FindStringSubmatch(data)
 	if match == nil {
 		return u.buildUnitParseError(data)
 	}
@@ -267,7 +271,7 @@ func (u *UnitsDefinition) parse(data string) (any, error) {
 	var intNumber int64
 	var err error
 	for _, multiplier := range u.getSortedMultipliersCache() {
-		matchGroupID := u.reSubExpNames[fmt.Sprintf("g%d", multiplier)]
+		matchGroupID := reSubExpNames[fmt.Sprintf("g%d", multiplier)]
 		result := match[matchGroupID]
 
 		intNumber, floatNumber, isFloat, err = u.handleParseMultiplier(
@@ -281,7 +285,7 @@ func (u *UnitsDefinition) parse(data string) (any, error) {
 			return 0, err
 		}
 	}
-	baseMatchGroup := match[u.reSubExpNames["g1"]]
+	baseMatchGroup := match[reSubExpNames["g1"]]
 	intNumber, floatNumber, isFloat, err = u.handleParseMultiplier(
 		baseMatchGroup,
 		1,
@@ -344,10 +348,23 @@ func (u *UnitsDefinition) handleParseMultiplier(
 	return intNumber, floatNumber, isFloat, nil
 }
 
-func (u *UnitsDefinition) updateReCache() {
+// getReCache returns the parsing expression and the indexes of its named groups, building them on first use.
+func (u *UnitsDefinition) getReCache() (*regexp.Regexp, map[string]int) {
+	sortedMultipliers := u.getSortedMultipliersCache()
+	u.cacheLock.Lock()
+	defer u.cacheLock.Unlock()
+	if u.reCache == nil {
+		re, reSubExpNames := u.buildRe(sortedMultipliers)
+		u.reCache = re
+		u.reSubExpNames = reSubExpNames
+	}
+	return u.reCache, u.reSubExpNames
+}
+
+func (u *UnitsDefinition) buildRe(sortedMultipliers []int64) (*regexp.Regexp, map[string]int) {
 	var parts []string
 	if u.MultipliersValue != nil {
-		for _, multiplier := range u.getSortedMultipliersCache() {
+		for _, multiplier := range sortedMultipliers {
 			unit := u.MultipliersValue[multiplier]
 			parts = append(parts, fmt.Sprintf(
 				"(?:|(?P<g%s>[0-9]+)\\s*(%s|%s|%s|%s))",
@@ -367,11 +384,12 @@ func (u *UnitsDefinition) updateReCache() {
 		regexp.QuoteMeta(u.BaseUnitValue.NameLongPlural()),
 	))
 	regex := "^\\s*" + strings.Join(parts, "\\s*") + "\\s*$"
-	u.reCache = regexp.MustCompile(regex)
-	u.reSubExpNames = map[string]int{}
-	for i, subExpName := range u.reCache.SubexpNames() {
-		u.reSubExpNames[subExpName] = i
+	re := regexp.MustCompile(regex)
+	reSubExpNames := map[string]int{}
+	for i, subExpName := range re.SubexpNames() {
+		reSubExpNames[subExpName] = i
 	}
+	return re, reSubExpNames
 }
 
 func (u *UnitsDefinition) buildUnitParseError(data string) (any, error) {
